@@ -205,7 +205,18 @@ func pigeonholeShape(fn *ssa.Function, mu *ssa.MapUpdate, keySet *ssa.MakeMap, i
 			continue
 		}
 		cmp, ok := iff.Cond.(*ssa.BinOp)
-		if !ok || cmp.Op != token.LEQ || !(cmp.Y == size || sameValueShape(cmp.Y, size)) {
+		if !ok || !(cmp.Y == size || sameValueShape(cmp.Y, size)) {
+			continue
+		}
+		// continue while i <= size (or: leave when i > size); exitEdge is the successor index that leaves the loop
+		exitEdge := -1
+		switch cmp.Op {
+		case token.LEQ:
+			exitEdge = 1
+		case token.GTR:
+			exitEdge = 0
+		}
+		if exitEdge < 0 {
 			continue
 		}
 		phi, ok := cmp.X.(*ssa.Phi)
@@ -222,7 +233,7 @@ func pigeonholeShape(fn *ssa.Function, mu *ssa.MapUpdate, keySet *ssa.MakeMap, i
 				}
 			}
 		}
-		if !initOK || !stepOK || !edgeDominates(b, 1, mu.Block()) {
+		if !initOK || !stepOK || !edgeDominates(b, exitEdge, mu.Block()) {
 			continue
 		}
 		// the body continues only when keySet[VariableKey(i)] is true
